@@ -40,6 +40,7 @@ pub mod c04;
 pub mod c05;
 pub mod c06;
 pub mod c07;
+pub mod c08;
 pub mod c09;
 pub mod c11;
 pub mod c12;
@@ -60,6 +61,7 @@ pub fn run(prop: &str) -> Option<Report> {
         "C05" => c05::run(),
         "C06" => c06::run(),
         "C07" => c07::run(),
+        "C08" => c08::run(),
         "C09" => c09::run(),
         "C11" => c11::run(),
         "C12" => c12::run(),
